@@ -39,7 +39,11 @@ type Events struct {
 
 // OutOfDomain reports whether the run left the domain on which WGSL (and the
 // float policy of DESIGN §3.1) determines the result.
-func (e *Events) OutOfDomain() string {
+func (e *Events) OutOfDomain() string { return e.OutOfDomainPolicy(false) }
+
+// OutOfDomainPolicy is OutOfDomain for runs under a bounds-check policy, where
+// out-of-range indices have a defined outcome (allowOOB).
+func (e *Events) OutOfDomainPolicy(allowOOB bool) string {
 	switch {
 	case e.NonFinite > 0:
 		return "nonfinite"
@@ -47,7 +51,7 @@ func (e *Events) OutOfDomain() string {
 		return "subnormal"
 	case e.FuzzyUse > 0:
 		return "fuzzy-use"
-	case e.OOB > 0:
+	case e.OOB > 0 && !allowOOB:
 		return "oob"
 	case e.UndefBuiltin > 0:
 		return "undef-builtin"
@@ -73,6 +77,11 @@ type Config struct {
 	// Policy for out-of-range indices: "" (count OOB event, clamp to stay alive),
 	// "restrict" handled by callers through events.
 	ZeroOOBReads bool
+	// ClampOOB: "restrict" policy — an out-of-range index is clamped into the
+	// object (unsigned interpretation: negative indices clamp to the last element,
+	// or to the first one when ClampNegToZero is set).
+	ClampOOB       bool
+	ClampNegToZero bool
 }
 
 // Result of a run.
@@ -528,6 +537,10 @@ func (m *machine) ref(e wgen.Expr) refT {
 		iv := m.eval(x.I)
 		m.discrete(iv)
 		i, ok := indexOf(iv, len(r.cell.E))
+		if !ok && m.cfg.ClampOOB && len(r.cell.E) > 0 {
+			m.ev.OOB++
+			i, ok = m.clampIndex(iv, len(r.cell.E)), true
+		}
 		if !ok {
 			m.ev.OOB++
 			r.oob = true
@@ -683,4 +696,25 @@ func (m *machine) concretizeDefault(v Value) Value {
 		}
 	}
 	return v
+}
+
+// clampIndex implements the "restrict" bounds-check policy.
+func (m *machine) clampIndex(iv Value, n int) int {
+	var i int64
+	switch iv.T.S {
+	case wgen.I32:
+		i = int64(int32(iv.B))
+		if i < 0 {
+			if m.cfg.ClampNegToZero {
+				return 0
+			}
+			return n - 1
+		}
+	case wgen.U32:
+		i = int64(iv.B)
+	}
+	if i >= int64(n) {
+		return n - 1
+	}
+	return int(i)
 }
